@@ -408,7 +408,37 @@ def fam_runtime_repr(rng):
     return "\n".join([HEADER, *body]) + "\n"
 
 
+def fam_in_narrowing(rng):
+    """A value of a NON-literal declared type narrowed by membership / equality against several literals: the narrowed
+    union is built by iterating the collection of candidates."""
+    strs = rng.sample(["'left'", "'right'", "'a'", "'b'", "'xyz'", "'seven'", "'k'", "'north'", "'south'", "'east'"], rng.randrange(3, 6))
+    byts = rng.sample(["b'q'", "b'rs'", "b'x'", "b'yy'", "b'zzz'"], 3)
+    enums = rng.sample(["Color.RED", "Color.GREEN", "Color.BLUE", "Color.CYAN", "Color.MAGENTA"], rng.randrange(3, 5))
+    mixed = rng.sample(strs + ["1", "2", "42", "None", "1.5"], 4)
+    o, c = rng.choice([("(", ")"), ("[", "]"), ("{", "}")])
+    body = [
+        "import enum",
+        "class Color(enum.Enum):", "    RED = 1", "    GREEN = 2", "    BLUE = 3", "    CYAN = 4", "    MAGENTA = 5",
+        f"CHOICES = ({', '.join(strs)})",
+        "def f(s: str, b: bytes, c: Color, o: object, a: Any, u: Union[int, str, None]):",
+        f"    if s in {o}{', '.join(strs)}{c}:", "        reveal_type(s)", "    else:", "        reveal_type(s)",
+        f"    if b in ({', '.join(byts)}):", "        reveal_type(b)",
+        f"    if c in {o}{', '.join(enums)}{c}:", "        reveal_type(c)", "    else:", "        reveal_type(c)",
+        f"    if o in ({', '.join(mixed)}):", "        reveal_type(o)",
+        f"    if a in [{', '.join(strs)}]:", "        reveal_type(a)",
+        f"    if u not in ({', '.join(mixed)}):", "        return", "    reveal_type(u)",
+        "    if s in CHOICES:", "        reveal_type(s)",
+        f"    assert c in ({', '.join(enums)})", "    reveal_type(c)",
+        "def g(s: str, c: Color):",
+        "    match s:", f"        case {' | '.join(strs)}:", "            reveal_type(s)", "        case _:", "            reveal_type(s)",
+        "    match c:", f"        case {' | '.join(enums)}:", "            reveal_type(c)",
+        f"    if {' or '.join('s == ' + x for x in strs)}:", "        reveal_type(s)",
+    ]
+    return "\n".join([HEADER, *body]) + "\n"
+
+
 FAMILIES = [
+    ("in-narrowing", fam_in_narrowing, 3),
     ("or-isinstance", fam_or_isinstance, 4), ("or-literal", fam_or_literal, 3), ("and-or-mixed", fam_and_or_mixed, 2),
     ("try-assign", fam_try_assign, 4), ("unused-vars", fam_unused, 4), ("unexpected-kwargs", fam_unexpected_kwargs, 3),
     ("missing-required", fam_missing_required, 1), ("protocol-members", fam_protocol, 2), ("protocol-one-wrong", fam_protocol_one, 2), ("bad-context-manager", fam_bad_context_manager, 2), ("builtin-bad-call", fam_builtin_bad_call, 2), ("format-keys", fam_format_keys, 3),
